@@ -492,6 +492,35 @@ def with_probes(prog, limit=40):
         nid += 3
         tid += 2
         added += 1
+    # group probes: for every value-group parameter seen in the program, a constructor that feeds the very group it
+    # consumes.  It is rejected (cycle); the path in its error shows the order of the scope's graph nodes, which is
+    # where leftovers of a rejected call would sit
+    elem = {t["id"]: t.get("elem", -1) for t in p.get("types", [])}
+    gkeys = set()
+
+    def gwalk(t):
+        if "st" in t:
+            for f in t["st"]:
+                g = f.get("tags", {}).get("group")
+                if g and "u" in f["t"] and elem.get(f["t"]["u"], -1) >= 10:
+                    gkeys.add((f["t"]["u"], g.split(",")[0]))
+                elif "st" in f["t"] or "ptr" in f["t"]:
+                    gwalk(f["t"])
+        elif "ptr" in t:
+            gwalk(t["ptr"])
+    for f in prog["fns"]:
+        for t in f.get("in", []):
+            gwalk(t)
+    for (sl, g) in sorted(gkeys)[:6]:
+        if not g or elem[sl] in (19,) or elem[sl] >= 30:
+            continue
+        fields = [{"n": "In", "x": True, "anon": True, "t": {"u": 1}, "tags": {}},
+                  {"n": "G", "x": True, "anon": False, "t": {"u": sl}, "tags": {"group": g + ",soft"}}]
+        p["fns"].append({"id": nid, "name": "P%d" % nid, "in": [{"st": fields, "id": tid}], "variadic": False, "out": [{"u": elem[sl]}]})
+        for s in sorted({0, nsc - 1}):
+            p["ops"].append({"op": "provide", "scope": s, "fn": nid, "name": "", "group": g, "as": [], "export": False, "cb": False, "info": False, "opts": ["group"]})
+        nid += 1
+        tid += 1
     p["ops"].append({"op": "visualize", "scope": 0, "errOf": -1})
     for s in range(nsc):
         p["ops"].append({"op": "string", "scope": s})
@@ -502,14 +531,30 @@ def strip_diag(o):
     return {k: v for k, v in o.items() if k in ("v", "ev", "info", "dot")}
 
 
-def twin_c06(prog, impl_run):
-    """for every rejected Provide/Decorate: the history without that call must behave identically
-    afterwards (and before).  Returns list of failure descriptions."""
+def input_rejected(op, o):
+    """Provide/Decorate that returned an error; Invoke that rejected the function it was given (C14: "an input
+    they reject changes nothing") — not an Invoke that failed while resolving or running"""
+    if vclass(o["v"]) not in ("err", "panic-dig"):
+        return False
+    if op["op"] in ("provide", "decorate"):
+        return True
+    if op["op"] == "invoke":
+        e = verr(o["v"]) or {}
+        ch = e.get("chain", [])
+        return (vclass(o["v"]) == "err" and bool(ch) and ch[0] in ("invalid", "groupOpt") and not e.get("cyc")
+                and not o.get("ev"))
+    return False
+
+
+def twin_c06(prog, impl_run, with_invoke=False):
+    """for every rejected Provide/Decorate (and, for C14, every Invoke whose function is rejected): the history
+    without that call must behave identically afterwards (and before).  Returns list of failure descriptions."""
     bad = []
     base = with_probes(prog)
     t0 = impl_run(base)
     rejected = [i for i, (op, o) in enumerate(zip(base["ops"], ops_of(t0)))
-                if i < len(prog["ops"]) and op["op"] in ("provide", "decorate") and vclass(o["v"]) in ("err", "panic-dig")]
+                if i < len(prog["ops"]) and (op["op"] != "invoke" or with_invoke) and input_rejected(op, o)
+                and not any(x.get("errOf", -1) == i for x in base["ops"])]
     for i in rejected[:6]:
         o = ops_of(t0)[i]
         if any(e["e"] in ("enter", "exit") for e in o.get("ev", [])):
